@@ -223,12 +223,15 @@ def limit_streams():
             cfg = dict(limit_request_fields=fields, limit_request_field_size=fsize)
             for nf in (fields - 1, fields, fields + 1):
                 for ln in (fsize - 1, fsize, fsize + 1):
-                    h = b""
-                    for i in range(max(0, nf)):
-                        name = b"X%d" % i
-                        val = b"v" * max(0, ln - 2 - len(name) - 2)
-                        h += name + b": " + val + b"\r\n"
-                    out.append((cfg, b"GET / HTTP/1.1\r\n" + h + b"\r\n" + SENTINEL, "fields", (nf, ln), (fields, fsize)))
+                    # plain names, and names with an underscore (dropped by the default header_map but, as the code says,
+                    # they "still count against resource limits")
+                    for pat in (b"X%d", b"X_%d"):
+                        h = b""
+                        for i in range(max(0, nf)):
+                            name = pat % i
+                            val = b"v" * max(0, ln - 2 - len(name) - 2)
+                            h += name + b": " + val + b"\r\n"
+                        out.append((cfg, b"GET / HTTP/1.1\r\n" + h + b"\r\n" + SENTINEL, "fields", (nf, ln), (fields, fsize)))
     return out
 
 
